@@ -459,6 +459,47 @@ def extra(ctx, uberjob):
             if d or tot != done or tot == 0:
                 ctx.fail("falsy-observer", "an observer object that is falsy (defines %s): %s; run totals %d, completed %d" % (falsy_by, d or "account well-formed", tot, done),
                          {"falsy_by": falsy_by, "registry": with_registry, "notifications": [repr(e) for e in seq[:30]]})
+    # (h) a member whose class derives from the library's NullProgressObserver (a natural base for a failures-only logger)
+    from uberjob.progress._null_progress_observer import NullProgressObserver
+
+    class FromNull(NullProgressObserver):
+        def __init__(self):
+            self.seq = []
+
+        def __enter__(self):
+            self.seq.append(("enter", None, None))
+
+        def __exit__(self, *a):
+            self.seq.append(("exit", None, None))
+
+        def increment_total(self, *, section, scope, amount):
+            self.seq.append(("total", section, (scope, amount)))
+
+        def increment_running(self, *, section, scope):
+            self.seq.append(("running", section, scope))
+
+        def increment_completed(self, *, section, scope):
+            self.seq.append(("completed", section, scope))
+
+        def increment_failed(self, *, section, scope, exception):
+            self.seq.append(("failed", section, scope))
+    for form in ("list", "composite", "nested"):
+        made = []
+
+        def factory():
+            o = FromNull()
+            made.append(o)
+            return o
+        pn, other = Progress(factory), RecProgress()
+        arg = [other, pn] if form == "list" else composite_progress(pn, other) if form == "composite" else composite_progress(composite_progress(pn), other)
+        plan = uberjob.Plan()
+        x_ = plan.call(lambda: 1)
+        uberjob.run(plan, output=x_, progress=arg, max_workers=1)
+        ctx.case(("c15-null-subclass-member", form))
+        d = py_wf(made[0].seq) if made else "no observer was created"
+        if d or not any(e[0] == "completed" for e in made[0].seq):
+            ctx.fail("null-subclass-member", "a composite member derived from NullProgressObserver (%s): %s; it received %r" % (form, d or "no completed notification", made[0].seq if made else None),
+                     {"form": form})
     # (f) the same Progress listed twice takes part twice
     for form in ("[p, p]", "(p, q, p)"):
         p_, q_ = RecProgress(), RecProgress()
